@@ -210,6 +210,87 @@ def shared_decorator_order(ctx, only=None):
                      "evaluations, got, evaluated) %r" % (bstack, sstack, bad[:3]))
 
 
+def posthoc_on_invariant_class(ctx, only=None):
+    """A contract attached to a method AFTER its class was given invariants (`C.g = icontract.require(...)(C.g)`; the method
+    is already wrapped with invariant checks and has / has no contracts of its own): the phases keep their order -
+    invariants-before, preconditions, body, postconditions, invariants-after. Enumerated: target {method without contracts,
+    method with a contract, __init__} x what is attached {require, ensure, both} x sync/async."""
+    import itertools
+    import icontract
+    from vf.progmodel.run import drive
+
+    for target, what, is_async in itertools.product(("bare-method", "contracted-method", "init"), ("require", "ensure", "both"), (False, True)):
+        if target == "init" and is_async:
+            continue
+        key = [target, what, is_async]
+        if only is not None and only != key:
+            continue
+        log = []
+
+        def inv(self):
+            log.append("inv")
+            return True
+
+        def pre(x):
+            log.append("pre")
+            return True
+
+        def post(result):
+            log.append("post")
+            return True
+
+        def pre0(x):
+            log.append("pre0")
+            return True
+
+        ns = {"icontract": icontract, "log": log, "inv": inv, "pre0": pre0}
+        A = "async " if is_async else ""
+        exec("\n".join([
+            "@icontract.invariant(inv)",
+            "class C:",
+            "    def __init__(self, x=1):",
+            "        log.append('body')",
+            "    %sdef g(self, x):" % A,
+            "        log.append('body')",
+            "        return x",
+            "    @icontract.require(pre0)",
+            "    %sdef h(self, x):" % A,
+            "        log.append('body')",
+            "        return x",
+        ]), ns)
+        C = ns["C"]
+        name = {"bare-method": "g", "contracted-method": "h", "init": "__init__"}[target]
+        try:
+            fn = getattr(C, name)
+            if what in ("ensure", "both"):
+                fn = icontract.ensure(post)(fn)
+            if what in ("require", "both"):
+                fn = icontract.require(pre)(fn)
+            setattr(C, name, fn)
+            if target == "init":
+                del log[:]
+                C()
+                got = list(log)
+            else:
+                o = C()
+                del log[:]
+                r = getattr(o, name)(1)
+                if is_async:
+                    drive(r)
+                got = list(log)
+        except BaseException as e:  # noqa
+            got = "%s: %s" % (type(e).__name__, str(e)[:100])
+        pres = (["pre0"] if target == "contracted-method" else []) + (["pre"] if what in ("require", "both") else [])
+        posts = ["post"] if what in ("ensure", "both") else []
+        want = ([] if target == "init" else ["inv"]) + pres + ["body"] + posts + ["inv"]
+        label = "%s attached to %s%s after the class got its invariant" % (what, "async " if is_async else "", target)
+        ctx.case(["posthoc-on-invariant-class"] + key, True, sample={"directed": label, "events": got})
+        ctx.count("directed:posthoc-on-invariant-class")
+        if got != want:
+            ctx.fail("posthoc-on-invariant-class|%s|%s" % (target, what), {"posthoc_on_invariant_class": key},
+                     "%s: expected the events %r, got %r" % (label, want, got))
+
+
 def run(ctx, tier, seed, shard, nshards):
     n = 400 if tier == "quick" else 2000
     D.explore(ctx, seed, n, strategy(), JUDGE, limit_all=6 if tier == "quick" else 9, n_sample=24,
@@ -217,9 +298,15 @@ def run(ctx, tier, seed, shard, nshards):
     if shard == 0:
         recreated_class_cases(ctx)
         shared_decorator_order(ctx)
+        posthoc_on_invariant_class(ctx)
 
 
 def replay(ctx, case):
+    if case.get("posthoc_on_invariant_class"):
+        before = ctx.evaluations
+        posthoc_on_invariant_class(ctx, only=case["posthoc_on_invariant_class"])
+        ctx.evaluations = before + 1
+        return
     if case.get("shared_decorator_order"):
         before = ctx.evaluations
         shared_decorator_order(ctx, only=case["shared_decorator_order"])
